@@ -177,7 +177,57 @@ def s_persist(sim):
     go(sim, 100000)
 
 
-SCENARIOS = {"exchange": s_exchange, "tcp": s_tcp, "ws": s_ws, "dtls": s_dtls, "oscore": s_oscore,
+def _blk(num, more, szx):
+    v = (num << 4) | (more << 3) | szx
+    return v.to_bytes((v.bit_length() + 7) // 8, "big") if v else b""
+
+
+def s_block2_raw(sim):
+    """a server that is not libcoap serves Block2 without Size2: the client's reassembly
+    buffer grows block by block (coap_realloc_type)"""
+    sim.add_node(0, block_mode=3)
+    body = bytes((7 * i) & 255 for i in range(150))
+    server = "10.0.0.9:5683"
+
+    def serve(sm, frm, to, data):
+        try:
+            m = cw.decode(data, "udp")
+        except Exception:
+            return
+        if not 1 <= m["code"] <= 31:
+            return
+        b2 = [v for n, v in m["options"] if n == 23]
+        num = (int.from_bytes(b2[0], "big") >> 4) if b2 and b2[0] else 0
+        part = body[num * 32:num * 32 + 32]
+        more = 1 if num * 32 + 32 < len(body) else 0
+        rsp = cw.msg(0x45, type=2, mid=m["mid"], token=m["token"],
+                     options=[(23, _blk(num, more, 1))], payload=part)
+        sm.inject(to, frm, cw.encode(rsp, "udp"))
+    sim.peers[server] = serve
+    sim.cmd("sess 0 0 udp %s" % server)
+    sim.cmd("send 0 0 type=0 code=1 token=b3 opts=11=%s" % b"big".hex())
+    go(sim, 120000)
+
+
+def s_block1_raw(sim):
+    """a client that is not libcoap uploads with Block1 without Size1, block 0 last: the
+    server's reassembly buffer grows (coap_realloc_type)"""
+    sim.add_node(1, block_mode=3)
+    sim.cmd("ep 1 udp %s" % SERVER)
+    sim.cmd("res 1 %s body=fixed:%s" % (b"r".hex(), b"hello".hex()))
+    sim.cmd("res 1 %s store=1" % b"up".hex())
+    body = bytes((11 * i) & 255 for i in range(80))
+    peer = "10.0.0.8:40000"
+    sim.peers[peer] = lambda *a: None
+    for j, num in enumerate([1, 2, 3, 0, 4]):
+        m = cw.msg(3, type=0, mid=0x5200 + j, token=b"\xb4", options=[
+            (11, b"up"), (27, _blk(num, 1 if num < 4 else 0, 0))], payload=body[num * 16:num * 16 + 16])
+        sim.inject(peer, SERVER, cw.encode(m, "udp"))
+        go(sim, 20)
+    go(sim, 120000)
+
+
+SCENARIOS = {"block2-raw": s_block2_raw, "block1-raw": s_block1_raw, "exchange": s_exchange, "tcp": s_tcp, "ws": s_ws, "dtls": s_dtls, "oscore": s_oscore,
              "async": s_async, "persist": s_persist, "block1": s_block1, "block2": s_block2,
              "observe": s_observe, "uri-helpers": s_uri, "setup-teardown": s_setup_teardown}
 
@@ -298,7 +348,9 @@ def work(job):
 def main(tier):
     run = common.Run("C18", tier, "fault_enumeration")
     run.rule = ("catalogue: context/endpoint/resource set-up + well-known request + tear-down; "
-                "CON and NON exchange; Block1 PUT (3 blocks); Block2 GET (3 blocks); observe "
+                "CON and NON exchange; Block1 PUT (3 blocks); Block2 GET (3 blocks); Block2 from a "
+                "server and Block1 from a client that are not libcoap and send no Size2/Size1 "
+                "(reassembly buffers grow by realloc; Block1 blocks out of order); observe "
                 "register + 3 notifies + cancel; URI/optlist helpers (coap_new_uri, "
                 "coap_clone_uri, coap_uri_into_optlist, coap_path_into_optlist, "
                 "coap_query_into_optlist, coap_add_optlist_pdu, coap_send); TCP and WebSocket "
